@@ -176,6 +176,28 @@ def run(cmd, cwd=None, timeout=None, env=None, out=None):
     p = subprocess.Popen(cmd, cwd=cwd, env=env or env_offline(), stdout=subprocess.PIPE,
                          stderr=subprocess.STDOUT, text=True, errors="replace",
                          start_new_session=True)
+    stop = {"v": False}
+    killed = []
+
+    def watchdog():
+        # kill any single process of this group (cbmc) whose resident set exceeds the limit:
+        # Kani then reports the harness as failed without checks -> undecided, never an alarm
+        limit_kb = int(float(os.environ.get("VERIF_MEM_GB", "10")) * 1024 * 1024)
+        while not stop["v"]:
+            try:
+                out = subprocess.run(["ps", "-eo", "pid,pgid,rss,comm"], stdout=subprocess.PIPE, text=True).stdout
+                for ln in out.split("\n")[1:]:
+                    f = ln.split()
+                    if len(f) >= 4 and f[1] == str(p.pid) and int(f[2]) > limit_kb:
+                        os.kill(int(f[0]), signal.SIGKILL)
+                        killed.append("%s rss=%dMB" % (f[3], int(f[2]) // 1024))
+            except Exception:
+                pass
+            time.sleep(4)
+
+    import threading
+    th = threading.Thread(target=watchdog, daemon=True)
+    th.start()
     try:
         txt, _ = p.communicate(timeout=timeout)
         rc = p.returncode
@@ -187,6 +209,9 @@ def run(cmd, cwd=None, timeout=None, env=None, out=None):
         txt, _ = p.communicate()
         txt = (txt or "") + "\n[timeout after %ss]\n" % timeout
         rc = 124
+    stop["v"] = True
+    if killed:
+        txt = (txt or "") + "\n[memory watchdog killed: %s]\n" % ", ".join(killed)
     if out:
         with open(out, "w") as f:
             f.write(txt)
